@@ -62,6 +62,7 @@ class PointsTo:
         self.effects = []
         self.field_stores = []
         self.funcs = list(funcs) if funcs is not None else list(self.prog.funcs.values())
+        self.unresolved = []          # [(Func, Call)]: calls through unresolved local values that receive (parts of) an input
         self.transient_readers = {}   # field -> set of Func.qual that may observe the transient value
         self.transient_nodes = set()  # ast.Assign nodes that are transient stores
         self._find_transient_stores()
@@ -350,6 +351,11 @@ class PointsTo:
                 is_method_call = h.cls is not None and params and params[0] == "self"
                 ctor = isinstance(c.func, ast.Name) and c.func.id in self.prog.classes or \
                     (isinstance(c.func, ast.Name) and c.func.id in f.mod.imports and f.mod.imports[c.func.id][1] in self.prog.classes)
+                # a class held in a local (`cls = table[kind]; cls(...)`): the call graph resolved it to the constructors
+                var_ctor = (not ctor) and isinstance(c.func, ast.Name) and h.name == "__init__" and h.cls is not None
+                if var_ctor and is_method_call:
+                    self._add(("local", h.qual, "self"), {("inst", h.cls.name)})
+                    out.add(("inst", h.cls.name))
                 if is_method_call:
                     if ctor:
                         inst = ("inst", h.cls.name)
@@ -441,6 +447,15 @@ class PointsTo:
         out = set()
         for a in args:
             out |= a
+        for v in kwargs.values():
+            out |= v
+        # a call through a local value (a class or function picked at run time) that the call graph could not resolve: where its
+        # arguments end up is unknown - remembered, so that a rule about aliases of the inputs can say so instead of passing
+        if isinstance(c.func, ast.Name) and c.func.id not in f.mod.funcs and c.func.id not in self.prog.classes and c.func.id not in f.mod.imports \
+                and any(isinstance(x, ast.Name) and x.id == c.func.id and isinstance(x.ctx, ast.Store) for x in walk_no_nested_defs(f.node)):
+            if any(self.is_input(o) for o in out):
+                if (f.qual, c.lineno, c.col_offset) not in {(u[0].qual, u[1].lineno, u[1].col_offset) for u in self.unresolved}:
+                    self.unresolved.append((f, c))
         return out
 
     # ---- solving -----------------------------------------------------------------
